@@ -237,7 +237,13 @@ def run(ctx, verdict, replay=None, model_ok=True):
     def do(k):
         ids = shards[k]
         cases = "[" + ";\n".join('("%s", %s)' % (jobs[i]["lang"], passlib.case_term(results[i])) for i in ids) + "]"
-        pre = passlib.PREAMBLE % "Model.Spec06 Proofs.ChainPresProofs Proofs.ChainPhpJavaProofs Proofs.ChainPhpInlineNF" + TAME_DEF + "Definition cases : list nfcase :=\n%s.\n" % cases
+        if getattr(ctx, "obligation", None) is None:
+            pre = passlib.PREAMBLE % "Model.Spec06 Proofs.ChainPresProofs Proofs.ChainPhpJavaProofs Proofs.ChainPhpInlineNF" + TAME_DEF
+        else:
+            # a proof no longer checks (reported as the violation): the theorem hypotheses cannot be evaluated, the
+            # search for a failing input goes on with the model and the normal-form predicates alone
+            pre = passlib.PREAMBLE % "Model.Spec06" + "Definition case_tame (c : nfcase) : bool := false.\n"
+        pre += "Definition cases : list nfcase :=\n%s.\n" % cases
         r = core.coq_eval_lists(ctx, "cases_C06_%d" % k, pre, [
             ("NF", "indices case_nf_bad cases"), ("MM", "indices case_chain_mismatch cases"),
             ("UM", "indices case_chain_unmodelled cases"), ("FL", "indices case_chain_failed cases"),
